@@ -90,7 +90,14 @@ func C09_Vote() {
 				votes = append(votes, net.vcm(i, 1, 1, net.prepared(1, 0, wd.blk, othersOf(0, i))))
 			}
 			n.deliver(net.nvm(1, 1, 1, votes, wd.blk).ToConsensusRawMessage())
-			adopted := n.m.state.View() == 1
+			// adopted: the NEW_VIEW's proposal was accepted for storing (with some weight vectors the three votes it
+			// carries do not reach the quorum and it is rightly ignored; the node is in view 1 anyway, by its own timeout)
+			adopted := false
+			for _, e := range n.st.Events {
+				if e.Kind == "PP" && e.Msg.View() == 1 {
+					adopted = true
+				}
+			}
 			for i := 0; i < 4; i++ {
 				if i != me && i != 1 {
 					from := env.NondetBool("prepare1_from")
